@@ -158,7 +158,7 @@ theorem PStage.wrap2 {o c d q s pts L} (h : PStage o c d q s pts L) (n n2 : Stri
 /-- **range phase (no unwrap, no shortcut).** The select after `planSpl`, `LRAPlanner` and the optional comparison
     holds the points of the direct reading's range stage and comparison. -/
 theorem lraPhase_ok (o : Oracles) (c : MCtx) (hn : c.namesOk) (d : LokiDb) (q : LogQuery) (hm : q.matchers.length ≤ 63)
-    (fn : RangeFn) (dur : Nat) (hms : 1000000 ∣ dur) (hd : 0 < dur) (cm : Option Comparison) :
+    (fn : RangeFn) (dur : Nat) (hd : 0 < dur) (cm : Option Comparison) :
     PStage o c d q (cmpOpt cm (lraSel fn dur false (samplesMain c.toCtx q)))
       (cmpStage cm (lraPts fn dur (d.samples.filter (entryMatches o c.toCtx d q)))) [.named "agg_a"] := by
   rw [lraPhase_eq c.toCtx q fn dur cm]
@@ -176,7 +176,7 @@ theorem lraPhase_ok (o : Oracles) (c : MCtx) (hn : c.namesOk) (d : LokiDb) (q : 
   refine ⟨⟨[(.named "agg_a", samplesRenamed c.toCtx q)], by rw [h1, hw], rfl⟩, h2, ?_⟩
   rw [h3, hmain]
   unfold lraBody
-  rw [lra_eval o (d.toDbM c) _ fn dur hms hd (d.samples.filter (entryMatches o c.toCtx d q)) (by simp [List.lookup])]
+  rw [lra_eval o (d.toDbM c) _ fn dur hd (d.samples.filter (entryMatches o c.toCtx d q)) (by simp [List.lookup])]
   exact having_rep o _ cm _ _ (lraRow_rep _ (lraPts_labels fn dur _))
 
 end Qryn.LogQL
@@ -268,7 +268,7 @@ theorem foldl_cmpStep (c : MCtx) (q : MetricQuery) (cm : Option Comparison) (s :
 /-- **plan_metric_correct, class `rangeFn(selector [d]) [cmp]`** (rate, count_over_time, bytes_rate, bytes_over_time;
     the samples path; step ≤ range). -/
 theorem planMetric_range_lra (o : Oracles) (c : MCtx) (hn : c.namesOk) (d : LokiDb) (r : RangeAgg) (fn : RangeFn)
-    (hk : r.kind = .lra fn) (hm : r.sel.matchers.length ≤ 63) (hms : 1000000 ∣ r.durNs) (hd : 0 < r.durNs)
+    (hk : r.kind = .lra fn) (hm : r.sel.matchers.length ≤ 63) (hd : 0 < r.durNs)
     (hs : takesShortcut (.range r) = false) (hstep : c.stepNs ≤ (r.durNs : Int)) :
     (evalSelA o (d.toDbM c) (planMetric c (.range r))).map normRow = evalMetric o c d (.range r) := by
   have hplan : planMetric c (.range r) =
@@ -278,7 +278,7 @@ theorem planMetric_range_lra (o : Oracles) (c : MCtx) (hn : c.namesOk) (d : Loki
       List.foldl_append, List.foldl_cons, List.foldl_nil, applyStep, foldl_cmpStep, splSel, stepFix_identity c _ _ hstep,
       matrixLabels, RangeAgg.isUnwrap, MetricQuery.agg?, Bool.false_and, Bool.or_self, Option.isSome_none]
   rw [hplan]
-  have h1 := lraPhase_ok o c hn d r.sel hm fn r.durNs hms hd r.cmp
+  have h1 := lraPhase_ok o c hn d r.sel hm fn r.durNs hd r.cmp
   have h2 := h1.join hn hm (cmpStage_labels _ _ _ (lraPts_labels fn r.durNs _)) (by decide) (by decide)
   rw [h2.final (by decide)]
   unfold evalMetric effWindow metricPoints
@@ -395,7 +395,7 @@ theorem map_ptLabels_regrouped (o : Oracles) (c : Ctx) (d : LokiDb) (q : LogQuer
 /-- **plan_metric_correct, class `aggOp by/without (…) (rangeFn(selector [d]) [cmp]) [cmp]`** (samples path, step ≤ range) -/
 theorem planMetric_agg_lra (o : Oracles) (c : MCtx) (hn : c.namesOk) (d : LokiDb) (a : VecAgg) (fn : RangeFn)
     (hk : a.inner.kind = .lra fn)
-    (hm : a.inner.sel.matchers.length ≤ 63) (hms : 1000000 ∣ a.inner.durNs) (hd : 0 < a.inner.durNs)
+    (hm : a.inner.sel.matchers.length ≤ 63) (hd : 0 < a.inner.durNs)
     (hs : takesShortcut (.agg a) = false) (hstep : c.stepNs ≤ (a.inner.durNs : Int)) :
     (evalSelA o (d.toDbM c) (planMetric c (.agg a))).map normRow = evalMetric o c d (.agg a) := by
   have hplan : planMetric c (.agg a) =
@@ -407,7 +407,7 @@ theorem planMetric_agg_lra (o : Oracles) (c : MCtx) (hn : c.namesOk) (d : LokiDb
       matrixLabels, RangeAgg.isUnwrap, MetricQuery.agg?, Option.isSome_some, Bool.false_and, Bool.false_or, if_true, planByWithout,
       Bool.not_false]
   rw [hplan]
-  have h1 := lraPhase_ok o c hn d a.inner.sel hm fn a.inner.durNs hms hd a.inner.cmp
+  have h1 := lraPhase_ok o c hn d a.inner.sel hm fn a.inner.durNs hd a.inner.cmp
   have h2 := h1.byWithoutTS hn hm (cmpStage_labels _ _ _ (lraPts_labels fn a.inner.durNs _)) (labelConds a.inner.sel).length
     (aggGrouping a)
     (by simp only [List.mem_singleton, Alias.named.injEq]; str_ne) (by simp only [List.mem_singleton, Alias.named.injEq]; str_ne)
